@@ -8,12 +8,33 @@ rule's own flag, everything but it, random subsets).  Three verdicts are compare
   * the model driver (`validate_request` op — same JSON, set iteration order preserved),
   * `region()` below: the documented region transliterated from the property text.
 impl != region  -> failing input of the property (VIOLATION);  impl != model -> broken tie.
+
+Further input classes (each judged by the same three verdicts):
+  * ISOLATION (`isolate`): every lattice / degenerate timeline is also judged with ALL flags on under a policy in which the
+    bounds of every rule but the responsible one are the hull of the timeline's own quantities (and the clock sits inside the
+    horizon window), so that exactly one rule is responsible although none is switched off — the "never masks" clause with
+    satisfied (not disabled) neighbours.
+  * DEGENERATE quantities (`degenerate`): every duration a rule looks at — bundle validity, overlap and interval of a
+    consecutive pair, first-to-last cycle length, distance to the clock — sits at EXACTLY ZERO, one second either side and a
+    whole day negative (identical / reversed inceptions, expiration == inception, touching bundles, expiry == now), at every
+    bundle position, against bounds as in the profile (zero must be refused), [0, max], [0, 0] and [-1 d, 0] (zero is an
+    inclusive bound); plus timelines whose bundles are all identical.
+  * ENVIRONMENT independence (`tz_stream`): KSR documents rendered as XML TEXT (timestamps without designator, with `Z`, with
+    `+00:00`, mixed) go through the real loader (`request_from_xml`, `load_ksr`) while the PROCESS time zone (TZ + tzset,
+    restored afterwards) is UTC and several non-UTC zones incl. zones with daylight saving (whole-hour and half-hour shifts,
+    both hemispheres); timelines start every few weeks over a whole year so that validities / overlaps / intervals straddle
+    every switch, with min == max bounds hit exactly, one-hour and one-second deviations, and the horizon bounds.  The parsed
+    instants must be the instants the text denotes in UTC, and the verdict must be the documented region's — in every zone.
 """
 
 from __future__ import annotations
 
 import itertools
+import os
+import tempfile
+import time
 from datetime import datetime, timezone
+from pathlib import Path
 from typing import Any
 
 import lib
@@ -22,6 +43,8 @@ from lib import DAY_US, PinnedClock, Result, request_j, request_policy_j, run_dr
 ASSUMPTIONS = [
     "the clock is the only external input of these rules; it is pinned (and, in a separate stream, the real clock is used with one-hour margins)",
     "non-timing rules are switched off or trivially satisfied in this run (they are C06/C07's subject)",
+    "the operator's horizon is a positive number of days (H >= 1: what a loaded configuration can hold; C05_iff carries the same hypothesis)",
+    "the process time zone can be switched with TZ + time.tzset() (POSIX); the run stops if a switch shows no effect",
 ]
 TRUSTED: list[str] = []
 
@@ -188,11 +211,301 @@ def flag_sets(tag: str, r: Any, tier: str) -> list[dict[str, bool]]:
         sets.append({f: (f == own) for f in TIMING_FLAGS})  # only the rule's own flag
         sets.append({f: (f != own) for f in TIMING_FLAGS})  # everything but it (must not reject on its account)
     # every single-flag-only assignment makes the full set of violated rules observable
-    if rule in ("random", "honest"):
+    if rule in ("random", "honest", "identical"):
         for f in TIMING_FLAGS:
             sets.append({g: (g == f) for g in TIMING_FLAGS})
     sets.append({f: r.random() < 0.5 for f in TIMING_FLAGS})
     return sets
+
+
+# ---- isolation: all flags on, exactly one rule responsible ------------------------------------------------------
+
+RULES = {  # rule -> (enable flag, where its bounds live, min, max)
+    "validity": ("signature_validity_match_zsk_policy", "zsk", "min_validity", "max_validity"),
+    "overlap": ("check_bundle_overlap", "zsk", "min_overlap", "max_overlap"),
+    "interval": ("check_bundle_intervals", "pol", "min_interval", "max_interval"),
+    "cycle": ("check_cycle_length", "pol", "min_cycle", "max_cycle"),
+}
+OWN_RULE = {"gap": "overlap"}
+
+
+def quantities(t: list[tuple[int, int]]) -> dict[str, list[int]]:
+    """the durations the rules look at, as the property text names them"""
+    return {
+        "validity": [e - i for i, e in t],
+        "overlap": [pe - ti for (_, pe), (ti, _) in zip(t, t[1:])],
+        "interval": [ti - pi for (pi, _), (ti, _) in zip(t, t[1:])],
+        "cycle": [t[-1][0] - t[0][0]] if t else [],
+    }
+
+
+def isolate(t: list[tuple[int, int]], zp: dict[str, int], pol: dict[str, Any], now: int, own: str) -> tuple[dict[str, int], dict[str, Any], int] | None:
+    """A policy under which every rule OTHER than `own` is satisfied by this very timeline (its bounds := the hull of the
+    timeline's own quantities; the clock one day before the earliest expiry, the horizon long enough; the configured count :=
+    the length), `own` keeping its bounds.  None when no policy can satisfy another rule (a gap: the overlap rule refuses it
+    whatever is declared)."""
+    own = OWN_RULE.get(own, own)
+    q = quantities(t)
+    zp2, pol2 = dict(zp), dict(pol)
+    for rule, (_, where, lo, hi) in RULES.items():
+        if rule == own or not q[rule]:
+            continue
+        tgt = zp2 if where == "zsk" else pol2
+        tgt[lo], tgt[hi] = min(q[rule]), max(q[rule])
+    if own != "overlap" and any(v < 0 for v in q["overlap"]):
+        return None
+    if own != "count":
+        pol2["num_bundles"] = len(t)
+    now2 = now
+    if own != "horizon" and t:
+        exps = [e for _, e in t]
+        now2 = min(exps) - DAY_US
+        if max(exps) - now2 >= (pol2["horizon_days"] + 1) * DAY_US:
+            pol2["horizon_days"] = (max(exps) - now2) // DAY_US + 1
+    return zp2, pol2, now2
+
+
+# ---- degenerate timelines: quantities exactly zero / negative -----------------------------------------------------
+
+ZERO_VALUES = [0, -SEC, SEC, -DAY_US]
+
+
+def bound_variants(lo: str, hi: str) -> list[tuple[str, dict[str, int]]]:
+    """bounds of the responsible rule: as in the profile (positive: zero must be refused), [0, max] (zero is the inclusive
+    lower bound), [0, 0] (zero is the only value), [-1 d, 0] (zero is the inclusive upper bound)"""
+    return [("profile", {}), ("min0", {lo: 0}), ("both0", {lo: 0, hi: 0}), ("neg..0", {lo: -DAY_US, hi: 0})]
+
+
+def degenerate(n: int, r: Any, tier: str) -> list[tuple[str, list[tuple[int, int]], dict[str, int], dict[str, Any], int]]:
+    """(tag, timeline, declared zsk policy, operator policy, now): one quantity at exactly zero / +-1 s / -1 d."""
+    out = []
+    start = 1_500_000_000 * SEC
+    now0 = start - 5 * DAY_US
+    V = 21 * DAY_US
+    for zp, pol in profiles(n):
+        base = honest(n, start)
+        positions = range(n) if (tier == "thorough" or n <= 4) else sorted({0, 1, n // 2, n - 2, n - 1} & set(range(n)))
+        for pos in positions:
+            for v in ZERO_VALUES:
+                for bv, over in bound_variants("min_validity", "max_validity"):
+                    t = list(base)
+                    t[pos] = (t[pos][0], t[pos][0] + v)
+                    out.append((f"validity:zero:{bv}:{pos}:{v}", t, dict(zp, **over), pol, now0))
+                if pos + 1 < n:
+                    for bv, over in bound_variants("min_overlap", "max_overlap"):
+                        t = list(base)
+                        inc = t[pos][1] - v
+                        t[pos + 1] = (inc, inc + V)
+                        out.append((f"overlap:zero:{bv}:{pos}:{v}", t, dict(zp, **over), pol, now0))
+                    for bv, over in bound_variants("min_interval", "max_interval"):
+                        # 'shift': this and all later bundles move;  'twin': only the next bundle moves onto / before this one
+                        t = list(base)
+                        delta = v - (t[pos + 1][0] - t[pos][0])
+                        for k in range(pos + 1, n):
+                            t[k] = (t[k][0] + delta, t[k][1] + delta)
+                        out.append((f"interval:zero:shift:{bv}:{pos}:{v}", t, zp, dict(pol, **over), now0))
+                        t = list(base)
+                        t[pos + 1] = (t[pos][0] + v, t[pos][0] + v + V)
+                        out.append((f"interval:zero:twin:{bv}:{pos}:{v}", t, zp, dict(pol, **over), now0))
+                for H in (1, 180):
+                    # distance from the clock to the expiry of bundle `pos` is exactly v (0: expires this very instant)
+                    out.append((f"horizon:zero:{pos}:{H}:{v}", base, zp, dict(pol, horizon_days=H), base[pos][1] - v))
+        for v in ZERO_VALUES if n >= 2 else [0]:
+            for bv, over in bound_variants("min_cycle", "max_cycle"):
+                t = list(base)
+                if n >= 2:
+                    t[-1] = (t[0][0] + v, t[0][0] + v + V)  # last inception on / before the first
+                out.append((f"cycle:zero:{bv}:{v}", t, zp, dict(pol, **over), now0))
+        # all bundles identical: every pairwise quantity is zero at once (validity zero, or validity kept)
+        zero_z = {k: 0 for k in zp}
+        zero_p = dict(pol, min_cycle=0, max_cycle=0, min_interval=0, max_interval=0)
+        for name, t in (("instant", [(start, start)] * n), ("twins", [(start, start + V)] * n)):
+            out.append((f"identical:{name}:profile", t, zp, pol, now0))
+            out.append((f"identical:{name}:zero-policy", t, zero_z, zero_p, now0))
+            out.append((f"identical:{name}:zero-policy-validity-kept", t, dict(zero_z, min_validity=V, max_validity=V, min_overlap=V, max_overlap=V), zero_p, now0))
+    return out
+
+
+# ---- environment independence: the process time zone ---------------------------------------------------------------
+
+# (IANA name, POSIX TZ string used when /usr/share/zoneinfo lacks the name, UTC offset in seconds on 16 January 2030)
+TZ_ZONES = [
+    ("UTC", "UTC0", 0),
+    ("America/New_York", "EST5EDT,M3.2.0,M11.1.0", -5 * 3600),
+    ("Australia/Lord_Howe", "<+1030>-10:30<+11>-11,M10.1.0,M4.1.0", 11 * 3600),
+    ("Asia/Kolkata", "IST-5:30", 5 * 3600 + 1800),
+    ("Europe/Berlin", "CET-1CEST,M3.5.0,M10.5.0/3", 3600),
+]
+TZ_PROBE = 1_894_752_000  # 2030-01-16T00:00:00Z
+STYLES = ["naive", "Z", "offset", "mixed"]
+
+
+class ProcessTZ:
+    """Switch the time zone of THIS process (TZ + tzset) and put it back afterwards."""
+
+    def __init__(self, name: str, posix: str, offset: int) -> None:
+        self.value = name if Path("/usr/share/zoneinfo", name).exists() else posix
+        self.posix, self.offset = posix, offset
+
+    def __enter__(self) -> "ProcessTZ":
+        self.saved = os.environ.get("TZ")
+        for value in (self.value, self.posix):
+            os.environ["TZ"] = value
+            time.tzset()
+            if time.localtime(TZ_PROBE).tm_gmtoff == self.offset:
+                self.value = value
+                return self
+        self.__exit__()
+        raise RuntimeError(f"cannot switch the process time zone to {self.value}: the environment-independence stream would be vacuous")
+
+    def __exit__(self, *a: Any) -> None:
+        if self.saved is None:
+            os.environ.pop("TZ", None)
+        else:
+            os.environ["TZ"] = self.saved
+        time.tzset()
+
+
+def fmt_instant(us: int, designator: str) -> str:
+    """xsd:dateTime text of a UTC instant, computed from the integer (no datetime / zone machinery involved)"""
+    days, rem = divmod(us, DAY_US)
+    # civil-from-days (proleptic Gregorian), Howard Hinnant's algorithm
+    z = days + 719468
+    era = z // 146097
+    doe = z - era * 146097
+    yoe = (doe - doe // 1460 + doe // 36524 - doe // 146096) // 365
+    y = yoe + era * 400
+    doy = doe - (365 * yoe + yoe // 4 - yoe // 100)
+    mp = (5 * doy + 2) // 153
+    d = doy - (153 * mp + 2) // 5 + 1
+    m = mp + 3 if mp < 10 else mp - 9
+    y += m <= 2
+    secs, frac = divmod(rem, SEC)
+    text = f"{y:04d}-{m:02d}-{d:02d}T{secs // 3600:02d}:{secs // 60 % 60:02d}:{secs % 60:02d}"
+    if frac:
+        text += f".{frac:06d}"
+    return text + {"naive": "", "Z": "Z", "offset": "+00:00"}[designator]
+
+
+def fmt_duration(us: int) -> str:
+    assert us >= 0 and us % SEC == 0
+    d, s = divmod(us // SEC, 86400)
+    return f"P{d}D" + (f"T{s}S" if s else "")
+
+
+_TZ_KEY: dict[str, str] = {}
+
+
+def ksr_xml(timeline: list[tuple[int, int]], zp: dict[str, int], style: str) -> str:
+    """A KSR document in the layout of the archived requests; one (real) 1024-bit ZSK, a placeholder signature."""
+    if not _TZ_KEY:
+        import keys as fx
+
+        tk = fx.rsa_keys(1024, 65537)[0]
+        _TZ_KEY["pk"] = tk.dnskey_b64().decode()
+        _TZ_KEY["tag"] = str(fx.rfc4034_key_tag(fx.dnskey_rdata(tk, 256, 8)))
+    lines = [
+        '<KSR domain="." id="tz-req" serial="1">', "  <Request>", "    <RequestPolicy>", "      <ZSK>",
+        "        <PublishSafety>P10D</PublishSafety>", "        <RetireSafety>P10D</RetireSafety>",
+        f"        <MaxSignatureValidity>{fmt_duration(zp['max_validity'])}</MaxSignatureValidity>",
+        f"        <MinSignatureValidity>{fmt_duration(zp['min_validity'])}</MinSignatureValidity>",
+        f"        <MaxValidityOverlap>{fmt_duration(zp['max_overlap'])}</MaxValidityOverlap>",
+        f"        <MinValidityOverlap>{fmt_duration(zp['min_overlap'])}</MinValidityOverlap>",
+        '        <SignatureAlgorithm algorithm="8">', '          <RSA exponent="65537" size="2048"/>', "        </SignatureAlgorithm>",
+        "      </ZSK>", "    </RequestPolicy>",
+    ]
+    for n, (i, e) in enumerate(timeline):
+        si, se = (style, style) if style != "mixed" else (("naive", "offset") if n % 2 == 0 else ("Z", "naive"))
+        lines += [
+            f'    <RequestBundle id="b{n}">', f"      <Inception>{fmt_instant(i, si)}</Inception>", f"      <Expiration>{fmt_instant(e, se)}</Expiration>",
+            f'      <Key keyIdentifier="zsk" keyTag="{_TZ_KEY["tag"]}">', "        <TTL>172800</TTL>", "        <Flags>256</Flags>", "        <Protocol>3</Protocol>",
+            "        <Algorithm>8</Algorithm>", f"        <PublicKey>{_TZ_KEY['pk']}</PublicKey>", "      </Key>",
+            '      <Signature keyIdentifier="zsk">', "        <TTL>172800</TTL>", "        <TypeCovered>DNSKEY</TypeCovered>", "        <Algorithm>8</Algorithm>",
+            "        <Labels>0</Labels>", "        <OriginalTTL>172800</OriginalTTL>", f"        <SignatureExpiration>{fmt_instant(e, se)}</SignatureExpiration>",
+            f"        <SignatureInception>{fmt_instant(i, si)}</SignatureInception>", f"        <KeyTag>{_TZ_KEY['tag']}</KeyTag>", "        <SignersName>.</SignersName>",
+            "        <SignatureData>AAAA</SignatureData>", "      </Signature>", "    </RequestBundle>",
+        ]
+    lines += ["  </Request>", "</KSR>", ""]
+    return "\n".join(lines)
+
+
+def tz_cases(r: Any, tier: str) -> list[tuple[str, list[tuple[int, int]], dict[str, int], dict[str, Any], dict[str, bool], int]]:
+    """(tag, timeline, zsk policy, operator policy, flags, now) — the same list is judged in every zone.  Timelines of three
+    bundles (41 days from first inception to last expiry) start every 13 (quick: 26) days from December 2029 to January 2031,
+    at varying times of day, so that every daylight-saving switch of every zone falls inside validities, overlaps and
+    intervals; bounds are hit exactly (min == max == P21D / P11D / P10D) and missed by one hour / one second."""
+    out = []
+    HOUR = 3600 * SEC
+    V, I = 21 * DAY_US, 10 * DAY_US
+    all_on = {f: True for f in TIMING_FLAGS}
+    only = lambda own: {f: (f == own) for f in TIMING_FLAGS}  # noqa: E731
+    first = 1_890_777_600 * SEC  # 2029-12-01T00:00:00Z
+    step = 26 if tier == "quick" else 13
+    tods = [0, 2 * HOUR + 1800 * SEC, 12 * HOUR, 23 * HOUR + 3599 * SEC, 1 * HOUR, 15 * HOUR + 1800 * SEC]
+    for k, day in enumerate(range(0, 420, step)):
+        start = first + day * DAY_US + tods[k % len(tods)]
+        n = 3
+        zp, pol = profiles(n)[0]
+        base = honest(n, start, I, V)
+        now0 = start - 5 * DAY_US
+        out.append((f"tz:honest:{k}", base, zp, pol, all_on, now0))
+        pos = k % n
+        for d in (HOUR, -HOUR, SEC, -SEC):
+            t = list(base)
+            t[pos] = (t[pos][0], t[pos][1] + d)
+            # the expiry moves: validity is off by d (and the overlap with the next bundle, if any)
+            out.append((f"tz:validity:{k}:{pos}:{d}", t, zp, pol, only("signature_validity_match_zsk_policy"), now0))
+            out.append((f"tz:validity:{k}:{pos}:{d}:all-on", t, zp, pol, all_on, now0))
+        for d in (HOUR, -HOUR):
+            t = list(base)
+            for j in range(1, n):
+                t[j] = (t[j][0] + d, t[j][1] + d)
+            out.append((f"tz:interval:{k}:{d}", t, zp, pol, only("check_bundle_intervals"), now0))
+            out.append((f"tz:overlap:{k}:{d}", t, zp, pol, only("check_bundle_overlap"), now0))
+            out.append((f"tz:cycle:{k}:{d}", t, zp, pol, only("check_cycle_length"), now0))
+        H = 60
+        ph = dict(pol, horizon_days=H)
+        for d in (-SEC, 0, SEC, HOUR, -HOUR):
+            out.append((f"tz:horizon:far:{k}:{d}", base, zp, ph, only("signature_check_expire_horizon"), base[-1][1] - (H + 1) * DAY_US + d))
+            out.append((f"tz:horizon:past:{k}:{d}", base, zp, ph, only("signature_check_expire_horizon"), base[0][1] + d))
+        if k % 4 == 0:
+            # a whole nine-bundle cycle with the wide profile, a random bundle's validity on a bound
+            zw, pw = profiles(9)[1]
+            t = honest(9, start, I, V)
+            j = r.randrange(9)
+            t[j] = (t[j][0], t[j][0] + r.choice([zw["min_validity"], zw["max_validity"], zw["min_validity"] - HOUR, zw["max_validity"] + HOUR]))
+            out.append((f"tz:nine:{k}:{j}", t, zw, pw, only("signature_validity_match_zsk_policy"), now0))
+            out.append((f"tz:nine:{k}:{j}:all-on", honest(9, start, I, V), zw, pw, all_on, now0))
+    return out
+
+
+def run_tz_case(case: dict[str, Any], via_file: bool = False) -> dict[str, Any]:
+    """Render the case as XML text, load it through /repo's loader and validate it — in the process time zone that is set NOW."""
+    from kskm.ksr.load import load_ksr, request_from_xml
+    from kskm.ksr.validate import validate_request
+
+    timeline = [tuple(x) for x in case["timeline"]]
+    xml = ksr_xml(timeline, case["zsk"], case["style"])
+    _, policy = build(timeline, case["zsk"], case["policy"], case["flags"])
+    parsed: Any = None
+
+    def go() -> Any:
+        nonlocal parsed
+        if via_file:
+            with tempfile.TemporaryDirectory(prefix="corr_C05_") as tmp:
+                f = Path(tmp, "ksr.xml")
+                f.write_text(xml)
+                req = load_ksr(f, policy, raise_original=True)
+                parsed = [(lib.dt_us(b.inception), lib.dt_us(b.expiration)) for b in req.bundles]
+                return True
+        req = request_from_xml(xml)
+        parsed = [(lib.dt_us(b.inception), lib.dt_us(b.expiration)) for b in req.bundles]
+        return validate_request(req, policy)
+
+    with PinnedClock() as clock:
+        clock.now_us = case["now"]
+        impl = run_impl(go)
+    return {"impl": impl, "parsed": parsed, "xml": xml}
 
 
 def run(tier: str, driver_ok: bool) -> Result:
@@ -202,24 +515,51 @@ def run(tier: str, driver_ok: bool) -> Result:
     res.rule = (
         "lattice {bound-1d, bound-1s, bound, bound+1s, bound+1d} around every bound of every timing rule at every bundle position "
         "(quick: first/second/middle/last two positions for n>4), n = 1..9 bundles, min<max and min==max profiles, flag sets = "
-        "all-on / own-flag-only / all-but-own / random (thorough: all 32), random timelines, real-clock stream; non-trivial = distinct "
-        "(timeline, policy, flags, now) input"
+        "all-on / own-flag-only / all-but-own / random (thorough: all 32) / all-on with every OTHER rule satisfied through the policy "
+        "(isolation: bounds := hull of the timeline's own quantities), random timelines, real-clock stream; "
+        "degenerate quantities: validity / overlap / interval / cycle length / distance to the clock at exactly 0, +-1 s, -1 d "
+        "(identical and reversed inceptions, expiration == inception, expiry == now) at every position against bounds = profile / "
+        "[0,max] / [0,0] / [-1d,0], all-identical timelines; environment independence: XML text (timestamps naive / Z / +00:00 / "
+        "mixed) through request_from_xml and load_ksr under process time zones UTC, America/New_York, Australia/Lord_Howe, "
+        "Asia/Kolkata, Europe/Berlin (TZ + tzset), three- and nine-bundle timelines starting every 26 d (thorough: 13 d) over 14 "
+        "months so that every DST switch is straddled, bounds hit exactly and missed by 1 h / 1 s, parsed instants compared with "
+        "the instants the text denotes; non-trivial = distinct (timeline, policy, flags, now[, zone, spelling]) input"
     )
     r = lib.rng("C05")
     cases: list[dict[str, Any]] = []
     lines: list[dict[str, Any]] = []
+    all_on = {f: True for f in TIMING_FLAGS}
+
+    def add(tag: str, n: int, timeline: list[tuple[int, int]], zp: dict[str, int], pol: dict[str, Any], flags: dict[str, bool], now: int, clock: Any) -> dict[str, bool]:
+        req, policy = build(timeline, zp, pol, flags)
+        clock.now_us = now
+        impl = run_impl(lambda: validate_request(req, policy))
+        reg = region(timeline, zp, pol, now)
+        want_accept = reg["count"] and all(reg[f] for f in TIMING_FLAGS if flags[f])
+        case = {"tag": tag, "n": n, "timeline": timeline, "zsk": zp, "policy": pol, "flags": flags, "now": now}
+        cases.append({"case": case, "impl": impl, "want": want_accept, "region": reg})
+        lines.append({"op": "validate_request", "request": request_j(req), "policy": request_policy_j(policy), "now": now})
+        return reg
+
     with PinnedClock() as clock:
         for n in range(1, 10):
-            for tag, timeline, zp, pol, now in lattice(n, r, tier):
-                for flags in flag_sets(tag, r, tier):
-                    req, policy = build(timeline, zp, pol, flags)
-                    clock.now_us = now
-                    impl = run_impl(lambda: validate_request(req, policy))
-                    reg = region(timeline, zp, pol, now)
-                    want_accept = reg["count"] and all(reg[f] for f in TIMING_FLAGS if flags[f])
-                    case = {"tag": tag, "n": n, "timeline": timeline, "zsk": zp, "policy": pol, "flags": flags, "now": now}
-                    cases.append({"case": case, "impl": impl, "want": want_accept, "region": reg})
-                    lines.append({"op": "validate_request", "request": request_j(req), "policy": request_policy_j(policy), "now": now})
+            for kind, gen in (("lattice", lattice), ("degenerate", degenerate)):
+                for tag, timeline, zp, pol, now in gen(n, r, tier):
+                    res.bump("class:" + kind)
+                    for flags in flag_sets(tag, r, tier):
+                        add(tag, n, timeline, zp, pol, flags, now, clock)
+                    rule = tag.split(":")[0]
+                    if rule in ("random", "honest", "identical"):
+                        continue
+                    iso = isolate(timeline, zp, pol, now, rule)
+                    if iso is None:
+                        res.bump("isolation:impossible (a gap: the overlap rule refuses whatever is declared)")
+                        continue
+                    reg = add(tag + ":isolated", n, timeline, iso[0], iso[1], all_on, iso[2], clock)
+                    own = OWN_RULE.get(rule, rule)
+                    own_clause = "count" if own == "count" else "signature_check_expire_horizon" if own == "horizon" else RULES[own][0]
+                    others_hold = all(v for c, v in reg.items() if c != own_clause)
+                    res.bump("isolation:" + ("others-satisfied:own-clause-" + ("holds" if reg[own_clause] else "violated") if others_hold else "another-clause-still-violated"))
     # real clock, one-hour margins
     real_now = lib.dt_us(datetime.now(timezone.utc))
     HOUR = 3600 * SEC
@@ -237,6 +577,27 @@ def run(tier: str, driver_ok: bool) -> Result:
             cases.append({"case": case, "impl": impl, "want": reg["count"] and reg["signature_check_expire_horizon"], "region": reg})
             lines.append({"op": "validate_request", "request": request_j(req), "policy": request_policy_j(policy), "now": real_now})
 
+    # environment independence: the same XML texts under several process time zones
+    tzc = tz_cases(r, tier)
+    for zname, posix, offset in TZ_ZONES:
+        with ProcessTZ(zname, posix, offset) as ptz:
+            res.bump(f"tz:zone:{zname} (TZ={ptz.value})", 0)
+            for ci, (tag, timeline, zp, pol, flags, now) in enumerate(tzc):
+                for si, style in enumerate(STYLES):
+                    if tier == "quick" and tag.split(":")[1] != "honest" and (ci + si) % 2:
+                        continue  # quick: non-honest cases alternate between two of the four spellings
+                    case = {"tag": tag, "n": len(timeline), "timeline": timeline, "zsk": zp, "policy": pol, "flags": flags, "now": now, "tz": zname, "style": style,
+                            "via_file": (ci + si) % 5 == 0}
+                    got = run_tz_case(case, via_file=case["via_file"])
+                    reg = region(timeline, zp, pol, now)
+                    want_accept = reg["count"] and all(reg[f] for f in TIMING_FLAGS if flags[f])
+                    cases.append({"case": case, "impl": got["impl"], "want": want_accept, "region": reg, "parsed": got["parsed"]})
+                    req, policy = build(timeline, zp, pol, flags)
+                    lines.append({"op": "validate_request", "request": request_j(req), "policy": request_policy_j(policy), "now": now})
+                    res.bump(f"tz:zone:{zname} (TZ={ptz.value})")
+                    res.bump("tz:spelling:" + style)
+                    res.bump("tz:path:" + ("load_ksr" if case["via_file"] else "request_from_xml"))
+
     model = run_driver(lines) if driver_ok else [None] * len(lines)
     for c, m in zip(cases, model):
         case, impl = c["case"], c["impl"]
@@ -244,17 +605,25 @@ def run(tier: str, driver_ok: bool) -> Result:
         rule = case["tag"].split(":")[0]
         res.bump("rule:" + rule)
         res.bump("impl:" + ("accept" if "ok" in impl else next(iter(impl.values()))))
-        if len(res.samples) < 4 and rule in ("validity", "horizon", "overlap", "random"):
+        if len(res.samples) < 5 and rule in ("validity", "horizon", "overlap", "random", "tz"):
             if not any(s["case"]["tag"].split(":")[0] == rule for s in res.samples):
                 res.sample({"case": case, "impl": impl, "model": m, "documented_region_accepts": c["want"]})
         impl_accept = "ok" in impl
+        key = rule if rule != "tz" else "tz:" + case["tag"].split(":")[1]
+        if "tz" in case and c["parsed"] is not None:
+            denoted = sorted(case["timeline"], key=lambda b: (b[1], b[0]))
+            if [tuple(x) for x in c["parsed"]] != [tuple(x) for x in denoted]:
+                res.violation(
+                    "loader: the instants parsed from the XML text are not the UTC instants the text denotes (process time zone dependent)",
+                    case, key="tz:parsed-instants", parsed=c["parsed"], denoted=denoted,
+                )
         if "error" in impl:
-            res.violation("timing rules: implementation ends in a non-policy error", case, key=f"error:{rule}", impl=impl)
+            res.violation("timing rules: implementation ends in a non-policy error", case, key=f"error:{key}", impl=impl)
         elif impl_accept != c["want"]:
             res.violation(
                 "timing rules: implementation verdict differs from the documented region",
                 case,
-                key=f"{rule}",
+                key=f"{key}",
                 impl=impl,
                 documented_region_accepts=c["want"],
                 clauses=c["region"],
@@ -276,6 +645,15 @@ def replay(obj: dict[str, Any]) -> Any:
     timeline = [tuple(x) for x in case["timeline"]]
     req, policy = build(timeline, case["zsk"], case["policy"], case["flags"])
     now = case["now"] if case["now"] != "real" else lib.dt_us(datetime.now(timezone.utc))
+    if "tz" in case:
+        zone = next(z for z in TZ_ZONES if z[0] == case["tz"])
+        with ProcessTZ(*zone):
+            got = run_tz_case(case, via_file=case.get("via_file", False))
+        with ProcessTZ(*TZ_ZONES[0]):
+            utc = run_tz_case(case, via_file=case.get("via_file", False))
+        m = run_driver([{"op": "validate_request", "request": request_j(req), "policy": request_policy_j(policy), "now": now}])[0]
+        return {"case": case, "xml": got["xml"], "implementation": got["impl"], "parsed_instants": got["parsed"], "denoted_instants": sorted(timeline, key=lambda b: (b[1], b[0])),
+                "implementation_under_UTC": utc["impl"], "parsed_instants_under_UTC": utc["parsed"], "model": m, "documented_region": region(timeline, case["zsk"], case["policy"], now)}
     with PinnedClock() as clock:
         clock.now_us = now
         impl = run_impl(lambda: validate_request(req, policy))
